@@ -16,9 +16,43 @@ ASSUMPTIONS = [
 ]
 
 
+def adapter_cases(res, have_drv):
+    """C15: adapting an IO object the poller refuses fails and leaves slot table and fd mode as they were
+    (real Async adapters on the calloop executor, harness `vh asyncio`, model `drv asyncio`)."""
+    import os
+    import common as C
+    from props import c17
+    n = 0
+    for c in c17.SPECIAL:
+        try:
+            impl, model = c17.run_all([c], have_drv)
+        except RuntimeError as ex:
+            d = C.write_replay(res.pid, {"case.io": "\n".join(c) + "\n", "verdict.txt": "the harness process died on this case: %s\n" % str(ex)[:600]})
+            res.violations.append(("%s: the process died while the loop dropped / refused an adapter   [%s]" % (PID, " ; ".join(c[1:])), os.path.join(d, "case.io")))
+            res.cov["impl_monitor_failures"] += 1
+            continue
+        n += 1
+        v = c17.spec_c17(c, impl[0])
+        if v:
+            d = C.write_replay(res.pid, {"case.io": "\n".join(c) + "\n", "impl.obs": "\n".join(impl[0]) + "\n", "verdict.txt": v + "\n"})
+            res.violations.append(("%s on a real adapter: %s   [%s]" % (PID, v, " ; ".join(c[1:])), os.path.join(d, "case.io")))
+            res.cov["impl_monitor_failures"] += 1
+        elif model is not None and impl[0] != model[0]:
+            res.broken.append("correspondence (adapter cases): real adapter and AsyncProto disagree on `%s`" % " ; ".join(c[1:]))
+    res.cov["adapter_cases"] = n
+    res.cov["evaluations"] = res.cov.get("evaluations", 0) + n
+
+
 def run(res, tier, seed, search=False, have_drv=True):
     coreprop.run_property(res, PID, PROFILES, tier, seed, search, have_drv)
+    adapter_cases(res, have_drv)
+    if res.violations:
+        res.broken = []
 
 
 def replay(path):
+    case = [l.rstrip("\n") for l in open(path) if l.strip()]
+    if len(case) > 1 and case[1].startswith("mode "):
+        from props import c17
+        return c17.replay(path)
     return coreprop.replay(path, PID)
